@@ -56,6 +56,8 @@ func newAuthority(cn string) *authority {
 type leafOpt struct {
 	expired    bool
 	selfSigned bool
+	// explicit validity (both set): overrides the default window
+	notBefore, notAfter time.Time
 }
 
 // issue creates a leaf with the given CN / DNS SANs, signed by a (or by itself).
@@ -77,6 +79,9 @@ func (a *authority) issue(cn string, sans []string, o leafOpt) (*leaf, error) {
 	if o.expired {
 		tmpl.NotBefore = time.Now().Add(-72 * time.Hour)
 		tmpl.NotAfter = time.Now().Add(-24 * time.Hour)
+	}
+	if !o.notBefore.IsZero() && !o.notAfter.IsZero() {
+		tmpl.NotBefore, tmpl.NotAfter = o.notBefore, o.notAfter
 	}
 	parent, signer := a.cert, a.key
 	if o.selfSigned {
